@@ -13,13 +13,14 @@ import (
 
 // C01Params: a dependency graph, a fault placement and a management history.
 type C01Params struct {
-	N      int      // modules m0..m(N-1)
-	Deps   [][2]int // (i, j): mi depends on mj, j < i
-	Fault  string   // "", or "<module>:<phase>:<err|panic>", phase in prep,start,stop; several faults joined with "+"
-	Mgmt   bool     // module management enabled
-	Rounds []int    // bit masks of enabled modules: Rounds[0] before Start, each further one followed by ManageModules
-	Pts    int      // interior points of start/stop callbacks
-	Work   bool     // every start routine launches a worker that returns on cancellation
+	N       int      // modules m0..m(N-1)
+	Deps    [][2]int // (i, j): mi depends on mj, j < i
+	Fault   string   // "", or "<module>:<phase>:<err|panic>", phase in prep,start,stop; several faults joined with "+"
+	Mgmt    bool     // module management enabled
+	Rounds  []int    // bit masks of enabled modules: Rounds[0] before Start, each further one followed by ManageModules
+	Pts     int      // interior points of start/stop callbacks
+	Work    bool     // every start routine launches a worker that returns on cancellation
+	Overlap bool     // management only: the pass for Rounds[1] runs in a second thread while the main thread enables Rounds[2] and runs its own pass
 }
 
 func (p C01Params) Name() string {
@@ -27,7 +28,11 @@ func (p C01Params) Name() string {
 	for _, d := range p.Deps {
 		ds = append(ds, fmt.Sprintf("%d>%d", d[0], d[1]))
 	}
-	return fmt.Sprintf("c01/n=%d/deps=%s/fault=%s/mgmt=%v/rounds=%v/pts=%d/work=%v", p.N, strings.Join(ds, ","), p.Fault, p.Mgmt, p.Rounds, p.Pts, p.Work)
+	n := fmt.Sprintf("c01/n=%d/deps=%s/fault=%s/mgmt=%v/rounds=%v/pts=%d/work=%v", p.N, strings.Join(ds, ","), p.Fault, p.Mgmt, p.Rounds, p.Pts, p.Work)
+	if p.Overlap {
+		n += "/overlap"
+	}
+	return n
 }
 
 type c01mod struct {
@@ -71,6 +76,10 @@ func (s *c01state) fault(idx int, phase string) error {
 		s.faultHit = true
 		if parts[2] == "panic" {
 			panic("seeded panic in " + phase)
+		}
+		if parts[2] == "cancelerr" {
+			// a failure whose error value wraps context.Canceled is a failure like any other
+			return fmt.Errorf("seeded failure in %s: %w", phase, context.Canceled)
 		}
 		return errors.New("seeded failure in " + phase)
 	}
@@ -238,7 +247,24 @@ func VerifC01(p C01Params) *vsched.Scenario {
 		vsched.Explore(true)
 		err := Start()
 		vsched.Ev(fmt.Sprintf("Start-returned:%v", err != nil))
-		if err == nil {
+		if err == nil && p.Overlap && len(p.Rounds) == 3 {
+			checkOnline("Start", mask)
+			// two overlapping management passes: when both have returned without error, the last enabled set is online
+			setEnabled(p.Rounds[1])
+			done := make(chan error, 1)
+			go func() {
+				vsched.Point("overlapping-pass")
+				done <- ManageModules()
+			}()
+			mask = p.Rounds[2]
+			setEnabled(mask)
+			e2 := ManageModules()
+			e1 := <-done
+			vsched.Ev(fmt.Sprintf("Manage-returned:%v/%v", e1 != nil, e2 != nil))
+			if e1 == nil && e2 == nil {
+				checkOnline("ManageModules", mask)
+			}
+		} else if err == nil {
 			checkOnline("Start", mask)
 			for _, r := range p.Rounds[min(1, len(p.Rounds)):] {
 				mask = r
